@@ -23,26 +23,175 @@ package config
 // ---------------------------------------------------------------- reading a scenario description: a configuration or an error, never neither
 
 //@ func DecodeMap
-//@ props C13 C08
+//@ props C13 C08 C16
 //@ ensures [config-or-error] iff(result1 == nil, result0 != nil)
 //@ ensures [bad-yaml-is-an-error] imp(result_of(yaml.Unmarshal, 0) != nil, result1 != nil)
 //@ ensures [invalid-description-is-an-error] imp(calls(config.DecodeAndValidate) == 1 && result_of(config.DecodeAndValidate, 0) != nil, result1 != nil)
 
 //@ func ParseAmmoConfig
-//@ props C13 C08
+//@ props C13 C08 C16
 //@ ensures [config-or-error] iff(result1 == nil, result0 != nil)
 //@ ensures [read-failure-is-an-error] imp(result_of(io.ReadAll, 1) != nil, result1 != nil && calls(DecodeMap) == 0)
 //@ at call DecodeMap assert [the-bytes-read] arg(bytes) == result_of(io.ReadAll, 0)
 
 //@ func ConvertHCLToAmmo
-//@ props C13 C08
+//@ props C13 C08 C16
+//@ at call yaml.Marshal assert [the-decoded-hcl-description] arg(in) == box(ammo)
+//@ at call DecodeMap assert [decoded-like-a-yaml-description] arg(bytes) == result_of(yaml.Marshal, 0)
+//@ ensures [marshal-failure-is-an-error] imp(result_of(yaml.Marshal, 1) != nil, result1 != nil && calls(DecodeMap) == 0)
 //@ ensures [config-or-error] iff(result1 == nil, result0 != nil)
 
 // An empty file name, a file that cannot be opened, an unknown extension and a description that does not parse are errors.
 //@ func ReadAmmoConfig
-//@ props C13 C08
+//@ props C13 C08 C16
 //@ ensures [config-or-error] imp(err == nil, ammoCfg != nil)
 //@ ensures [a-file-is-required] imp(fileName == "", err != nil && calls(fs.Open) == 0)
 //@ ensures [open-failure-is-an-error] imp(fileName != "" && result_of(fs.Open, 1) != nil, err != nil && ammoCfg == nil)
 //@ ensures [the-file-is-closed-once-opened] imp(fileName != "" && result_of(fs.Open, 1) == nil, calls(file.Close) == 1)
 //@ at call fs.Open assert arg(name) == fileName0
+//@ at call ParseHCLFile assert [hcl-by-extension] strings.HasSuffix(lowerName, ".hcl") && arg(file) == file
+//@ at call ConvertHCLToAmmo assert [the-parsed-hcl-description] arg(ammo) == result_of(ParseHCLFile, 0) && result_of(ParseHCLFile, 1) == nil
+//@ at call ParseAmmoConfig assert [yaml-by-extension] !strings.HasSuffix(lowerName, ".hcl") && arg(file) == box(file)
+//@ ensures [hcl-parse-failure-is-an-error] imp(calls(ParseHCLFile) == 1 && result_of(ParseHCLFile, 1) != nil, err != nil && calls(ConvertHCLToAmmo) == 0)
+
+// ---------------------------------------------------------------- HCL front end (C16): the HCL description is decoded into the *HCL structs,
+// marshalled to YAML and decoded by the same DecodeMap as a YAML description. What gohcl, yaml and mapstructure do with the
+// struct tags is assumed; that the tags line up, field by field and in both directions, is checked here.
+
+//@ struct AmmoHCL
+//@ props C16
+//@ decodes_as AmmoConfig except AmmoConfig.Locals
+//@ tag VariableSources hcl variable_source
+//@ tag Requests hcl request
+//@ tag Calls hcl call
+//@ tag Scenarios hcl scenario
+
+//@ struct ScenarioHCL
+//@ props C16
+//@ decodes_as ScenarioConfig
+//@ tag Name hcl label
+//@ tag Weight type *int64
+//@ tag Weight yaml omitempty
+//@ tag MinWaitingTime type *int64
+//@ tag MinWaitingTime yaml omitempty
+
+//@ struct SourceHCL
+//@ props C16
+//@ decodes_as github.com/yandex/pandora/components/providers/scenario/vs.VariableSourceCsv|github.com/yandex/pandora/components/providers/scenario/vs.VariableSourceJSON|github.com/yandex/pandora/components/providers/scenario/vs.VariableSourceVariables except Type
+//@ tag Name hcl label
+//@ tag Type hcl label
+//@ tag File yaml omitempty
+//@ tag Fields yaml omitempty
+//@ tag IgnoreFirstLine yaml omitempty
+//@ tag Delimiter yaml omitempty
+//@ tag Variables yaml omitempty
+
+//@ struct RequestHCL
+//@ props C16
+//@ decodes_as RequestConfig
+//@ tag Name hcl label
+//@ tag Headers yaml omitempty
+//@ tag Tag yaml omitempty
+//@ tag Body type *string
+//@ tag Body yaml omitempty
+//@ tag Preprocessor hcl block
+//@ tag Preprocessor yaml omitempty
+//@ tag Postprocessors hcl postprocessor
+//@ tag Postprocessors yaml omitempty
+//@ tag Templater yaml omitempty
+
+//@ struct RequestPreprocessorHCL
+//@ props C16
+//@ decodes_as github.com/yandex/pandora/components/providers/scenario/http/preprocessor.Preprocessor
+
+//@ struct RequestPostprocessorHCL
+//@ props C16
+//@ decodes_as github.com/yandex/pandora/components/providers/scenario/http/postprocessor.VarHeaderPostprocessor|github.com/yandex/pandora/components/providers/scenario/http/postprocessor.VarJsonpathPostprocessor|github.com/yandex/pandora/components/providers/scenario/http/postprocessor.VarXpathPostprocessor|github.com/yandex/pandora/components/providers/scenario/http/postprocessor.AssertResponse except Type
+//@ tag Type hcl label
+//@ tag Mapping yaml omitempty
+//@ tag Headers yaml omitempty
+//@ tag Body yaml omitempty
+//@ tag StatusCode yaml omitempty
+//@ tag Size yaml omitempty
+
+//@ struct AssertSizeHCL
+//@ props C16
+//@ decodes_as github.com/yandex/pandora/components/providers/scenario/http/postprocessor.AssertSize
+
+//@ struct TemplaterHCL
+//@ props C16
+//@ tag Type hcl type
+//@ tag Type yaml type
+
+//@ struct CallHCL
+//@ props C16
+//@ decodes_as CallConfig
+//@ tag Name hcl label
+//@ tag Tag yaml omitempty
+//@ tag Metadata yaml omitempty
+//@ tag Preprocessor hcl preprocessor
+//@ tag Preprocessor yaml omitempty
+//@ tag Postprocessors hcl postprocessor
+//@ tag Postprocessors yaml omitempty
+
+//@ struct CallPreprocessorHCL
+//@ props C16
+//@ decodes_as github.com/yandex/pandora/components/providers/scenario/grpc/preprocessor.PreparePreprocessor except Type
+//@ tag Type hcl label
+
+//@ struct CallPostprocessorHCL
+//@ props C16
+//@ decodes_as github.com/yandex/pandora/components/providers/scenario/grpc/postprocessor.AssertResponse except Type
+//@ tag Type hcl label
+//@ tag Payload yaml omitempty
+//@ tag StatusCode yaml omitempty
+
+// Parsing an HCL description: locals are evaluated first and are available, together with the collection functions, when
+// the rest of the file is decoded.
+//@ func ParseHCLFile
+//@ props C16 C13
+//@ ensures [read-failure-is-an-error] imp(result_of(io.ReadAll, 1) != nil, result1 != nil)
+//@ at call f.Body.PartialContent assert [only-after-a-clean-parse] !result_of(parser.ParseHCL, 1).HasErrors()
+//@ ensures [bad-locals-are-errors] imp(calls(decodeLocals) == 1 && result_of(decodeLocals, 1).HasErrors(), result1 != nil && calls(gohcl.DecodeBody) == 0)
+//@ ensures [decode-errors-are-errors] imp(calls(gohcl.DecodeBody) == 1 && result_of(gohcl.DecodeBody, 0).HasErrors(), result1 != nil)
+//@ at call decodeLocals assert [the-locals-blocks-of-the-file] arg(localsBodyContent) == result_of(f.Body.PartialContent, 0)
+//@ at call gohcl.DecodeBody assert [the-rest-of-the-file-with-the-evaluated-locals] arg(body) == result_of(f.Body.PartialContent, 1) && arg(ctx) == result_of(decodeLocals, 0)
+//@ at call f.Body.PartialContent assert [locals-are-split-off] arg(schema) == result_of(localsSchema, 0)
+
+//@ func localsSchema
+//@ props C16
+//@ modifies nothing
+//@ ensures [locals-blocks-without-labels] result != nil && len(result.Blocks) == 1 && result.Blocks[0].Type == "locals" && len(result.Blocks[0].LabelNames) == 0 && len(result.Attributes) == 0
+
+// Every locals block is evaluated in the context of the blocks before it and its values are added to that context.
+//@ func decodeLocals
+//@ props C16
+//@ at call buildHclContext#0 assert [starts-empty] len(arg(vars)) == 0
+//@ at call decodeLocalBlock assert [evaluated-in-the-context-so-far] arg(localsBlock) == block && arg(hclContext) == hclContext
+//@ at call mergeMaps assert [added-to-the-variables-so-far] arg(to) == vars && arg(from) == result_of(decodeLocalBlock, 0)
+//@ at call buildHclContext#1 assert [context-of-all-variables-so-far] arg(vars) == result_of(mergeMaps, 0)
+//@ loop 0 invariant [no-block-failed-so-far] imp(calls(decodeLocalBlock) > 0, result_of(decodeLocalBlock, 1) == nil) && vars != nil
+//@ ensures [a-failing-block-is-an-error] imp(calls(decodeLocalBlock) > 0 && result_of(decodeLocalBlock, 1) != nil, result0 == nil && result1 == result_of(decodeLocalBlock, 1))
+
+//@ func mergeMaps
+//@ props C16
+//@ requires to != nil
+//@ ensures [the-target-map-is-returned] result == to
+//@ loop 0 step [every-entry-of-the-source-is-copied] has(to, rangekey) && to[rangekey] == from[rangekey]
+//@ modifies elems(to)
+
+//@ func decodeLocalBlock
+//@ props C16 C13
+//@ at call attr.Expr.Value assert [evaluated-in-the-given-context] arg(ctx) == hclContext0
+//@ loop 0 invariant [no-attribute-failed-so-far] imp(calls(attr.Expr.Value) > 0, result_of(attr.Expr.Value, 1) == nil) && vars != nil
+//@ loop 0 step [the-value-is-stored-under-the-attribute-name] has(vars, rangekey) && vars[rangekey] == result_of(attr.Expr.Value, 0)
+//@ ensures [a-failing-attribute-is-an-error] imp(calls(attr.Expr.Value) > 0 && result_of(attr.Expr.Value, 1) != nil, result0 == nil)
+//@ ensures [bad-block-is-an-error] imp(result_of(localsBlock.Body.JustAttributes, 1) != nil, result0 == nil && result1 == result_of(localsBlock.Body.JustAttributes, 1))
+
+// The evaluation context: the locals under "local" and the documented collection functions.
+//@ func buildHclContext
+//@ props C16
+//@ at call cty.ObjectVal assert [the-locals] arg(attrs) == vars0
+//@ ensures [locals-under-local] result != nil && result.Variables["local"] == result_of(cty.ObjectVal, 0)
+//@ ensures [documented-collection-functions] has(result.Functions, "coalesce") && has(result.Functions, "coalescelist") && has(result.Functions, "compact") && has(result.Functions, "concat") && has(result.Functions, "distinct") && has(result.Functions, "element") && has(result.Functions, "flatten") && has(result.Functions, "index") && has(result.Functions, "keys") && has(result.Functions, "lookup") && has(result.Functions, "merge") && has(result.Functions, "reverse") && has(result.Functions, "slice") && has(result.Functions, "sort") && has(result.Functions, "split") && has(result.Functions, "values") && has(result.Functions, "zipmap")
+//@ ensures [each-name-is-its-own-function] result.Functions["coalesce"] == stdlib.CoalesceFunc && result.Functions["coalescelist"] == stdlib.CoalesceListFunc && result.Functions["compact"] == stdlib.CompactFunc && result.Functions["concat"] == stdlib.ConcatFunc && result.Functions["distinct"] == stdlib.DistinctFunc && result.Functions["element"] == stdlib.ElementFunc && result.Functions["flatten"] == stdlib.FlattenFunc && result.Functions["index"] == stdlib.IndexFunc && result.Functions["keys"] == stdlib.KeysFunc && result.Functions["lookup"] == stdlib.LookupFunc && result.Functions["merge"] == stdlib.MergeFunc && result.Functions["reverse"] == stdlib.ReverseListFunc && result.Functions["slice"] == stdlib.SliceFunc && result.Functions["sort"] == stdlib.SortFunc && result.Functions["split"] == stdlib.SplitFunc && result.Functions["values"] == stdlib.ValuesFunc && result.Functions["zipmap"] == stdlib.ZipmapFunc
